@@ -505,6 +505,53 @@ def unencodable_worlds():
     return ws
 
 
+def typed_placeholder_worlds():
+    """a composite placeholder whose elements are Go integers (`[]int64{9007199254740993, 7}`, a map with an int and an
+    int64): what arrives in the snapshot is the placeholder as given - every digit of it - through MatchJSON and
+    MatchStandaloneJSON, as the only matcher and behind another one"""
+    worlds = []
+    doc = '{"id": 1, "tags": ["a"], "meta": {"v": 1}, "z": "end"}'
+    want = {'"@bigints"': [9007199254740993, 7], '"@intmap"': {'version': 3, 'big': 9007199254740993, 'ids': [1, 2]}}
+    k = 0
+    for ph in sorted(want):
+        for kind in ('json', 'sajson'):
+            for path, extra in (('tags', ''), ('meta', ''), ('tags', ' ' + docs.any_matcher(['id']))):
+                k += 1
+                w = World('c15-typedph-%d' % k)
+                w.add(mode_line(False, ''))
+                w.add(cfg_line(1, 'snaps', 'f' if kind == 'json' else None, None, 'none'))
+                w.add('begin 1 %s' % hx(b'TestTypedPh'))
+                rec = w.add('%s 1 1 s %s %s%s' % (kind, hx(doc), docs.any_matcher([path], ph), extra))
+                w.add('end 1')
+
+                def oracle(line, raw, ww, ph=ph, path=path, kind=kind, rec=rec):
+                    if [e for e, _ in core.Line(ww.impl[rec]).events] != ['L']:
+                        return 'the call with a composite integer placeholder was not recorded: %r' % [(e, x[:60]) for e, x in core.Line(ww.impl[rec]).events]
+                    fs0 = parse_fs(raw)
+                    if kind == 'json':
+                        pp = [x for x in fs0 if x.endswith(b'/f.snap')]
+                        body = dict(parse_snap(fs0[pp[0]]) or []).get(b'TestTypedPh - 1') if pp else None
+                    else:
+                        bodies = [fs0[x] for x in fs0 if b'/TestTypedPh_1' in x]
+                        body = bodies[0] if bodies else None
+                    try:
+                        got = json.loads(body.decode())[path]
+                    except Exception:
+                        return 'stored text is not the document: %r' % (body[:120] if body else body)
+                    def same(a, b):
+                        if isinstance(b, dict):
+                            return isinstance(a, dict) and set(a) == set(b) and all(same(a[x], b[x]) for x in b)
+                        if isinstance(b, list):
+                            return isinstance(a, list) and len(a) == len(b) and all(same(x, y) for x, y in zip(a, b))
+                        return type(a) == type(b) and a == b
+                    if not same(got, want[ph]):
+                        return 'the placeholder %r arrived as %r' % (want[ph], got)
+                    return None
+                w.add('fsdump', ('integer-placeholder-arrives-as-given', oracle))
+                worlds.append(w)
+    return worlds
+
+
 def run(ctx):
     jsonlens.run_json_lens(ctx)
     g = Gen(ctx.seed * 1000003 + 15)
@@ -517,5 +564,6 @@ def run(ctx):
     worlds += unencodable_worlds()
     run_suite(ctx, 'matchers.direct', worlds, known=known, use_model=False, chunk=1000)
     worlds = [entry_world(g, 'c15e-%d' % i) for i in range(n // 2)]
+    worlds += typed_placeholder_worlds()
     run_suite(ctx, 'matchers.entrypoints', worlds, known=known, chunk=500)
     findings.report(ctx, 'C15')
